@@ -202,40 +202,5 @@ func execC01(x *Ctx, sc *wire.Scenario) *wire.Result {
 	if crashOracle(res, out, "C01") {
 		return res
 	}
-	// transient read error: with only eintr faults the session must behave
-	// exactly like the fault-free one (canonical twin runs).
-	onlyEintr := len(sc.Plan.Faults) > 0
-	for _, f := range sc.Plan.Faults {
-		if f.Kind != "eintr" {
-			onlyEintr = false
-		}
-	}
-	if onlyEintr {
-		p1 := wire.Plan{Policy: "canonical", Class: "S0", Faults: sc.Plan.Faults}
-		p0 := wire.Plan{Policy: "canonical", Class: "S0"}
-		a := runSession(x, sc, p1, sim.Hooks{}, false)
-		absorb(res, a)
-		if crashOracle(res, a, "C01") {
-			return res
-		}
-		fired := 0
-		for k, v := range a.Counters {
-			if strings.HasPrefix(k, "fault:eintr") {
-				fired += v
-			}
-		}
-		if fired > 0 {
-			b := runSession(x, sc, p0, sim.Hooks{}, false)
-			absorb(res, b)
-			if crashOracle(res, b, "C01") {
-				return res
-			}
-			if a.End != b.End || retString(a.Returns) != retString(b.Returns) || a.FinalSnap.Line != b.FinalSnap.Line {
-				violation(res, "TRANSIENT", "C01.transient-error-harmless", "transient:"+a.End+"-vs-"+b.End,
-					fmt.Sprintf("a transient read error (no data) changed the session: with=%s %v %q, without=%s %v %q",
-						a.End, a.Returns, a.FinalSnap.Line, b.End, b.Returns, b.FinalSnap.Line))
-			}
-		}
-	}
 	return res
 }
